@@ -186,6 +186,8 @@ def make_axis_hook(get_scanner):
 def axis_lemmas(chk, prog, rule="L"):
     """_qp(axis,n) is _axis[axis]->at(n) and getDelta(x) is _axis[x]->delta(): read from the accessor bodies"""
     for nm, meth in (("_qp", "at"), ("getDelta", "delta")):
+        if nm == "_qp" and not prog.fns("vfps::PhaseSpace::_qp"):
+            continue            # the private helper has been inlined into q()/p(): their bodies are read directly (lemmas below)
         f = prog.fn("vfps::PhaseSpace::" + nm)
         r = _single_return(f)
         ok = False
@@ -275,11 +277,16 @@ def lemmas(chk, prog, rule="L"):
         s = A.strip(r) if r is not None else None
         ok = s is not None and s["k"] == "CXXMemberCallExpr" and s.get("callee") == "vfps::PhaseSpace::_qp" and \
             _axis_arg(s["args"][0]) == ax and (A.declref(s["args"][1]) or {}).get("decl") == f["params"][0]["decl"]
-        chk.check(ok, rule, f.where, "PhaseSpace::%s(i) is _qp(%d,i)" % (meth, ax), "PhaseSpace::%s" % meth); chk.used(f); n += 1
-    f = prog.fn("vfps::PhaseSpace::_qp")
-    r = _single_return(f)
+        if not ok and s is not None and s["k"] == "CXXMemberCallExpr" and (s.get("callee") or "").startswith("vfps::Ruler") and s["callee"].endswith("::at"):
+            # written out: _axis[ax]->at(i)
+            e_ = _axis_subscript(A.call_object(s))
+            ok = e_ is not None and _axis_arg(e_) == ax and (A.declref(s["args"][0]) or {}).get("decl") == f["params"][0]["decl"]
+        chk.check(ok, rule, f.where, "PhaseSpace::%s(i) is the coordinate of grid point i on axis %d (_qp(%d,i) or _axis[%d]->at(i))" % (meth, ax, ax, ax), "PhaseSpace::%s" % meth); chk.used(f); n += 1
+    qpf = prog.fns("vfps::PhaseSpace::_qp")
+    f = qpf[0] if qpf else None
+    r = _single_return(f) if f is not None else None
     s = A.strip(r) if r is not None else None
-    ok = False
+    ok = f is None
     if s is not None and s["k"] == "CXXMemberCallExpr" and (s.get("callee") or "").startswith("vfps::Ruler") and s["callee"].endswith("::at"):
         o = A.strip(A.call_object(s))
         # _axis[axis]->at(n)
@@ -288,7 +295,8 @@ def lemmas(chk, prog, rule="L"):
             ok = A.member_name(sub["args"][0]) == "_axis" and \
                 (A.declref(sub["args"][1]) or {}).get("decl") == f["params"][0]["decl"] and \
                 (A.declref(s["args"][0]) or {}).get("decl") == f["params"][1]["decl"]
-    chk.check(ok, rule, f.where, "PhaseSpace::_qp(axis,n) is _axis[axis]->at(n)", "PhaseSpace::_qp"); chk.used(f); n += 1
+    if f is not None:
+        chk.check(ok, rule, f.where, "PhaseSpace::_qp(axis,n) is _axis[axis]->at(n)", "PhaseSpace::_qp"); chk.used(f); n += 1
     for meth, rm in (("getDelta", "delta"), ("getMin", "min"), ("getMax", "max"), ("getAxis", None)):
         f = prog.fn("vfps::PhaseSpace::" + meth)
         r = _single_return(f)
